@@ -18,13 +18,13 @@ import (
 
 type m6 struct {
 	inCompactArray map[*ssa.Alloc]bool
-	c        *Ctx
-	fn       *ssa.Function
-	vl       int64
-	cls      []*countedLoop
-	memoBase map[ssa.Value]string
-	memoIdx  map[ssa.Value]string
-	busy     map[ssa.Value]bool
+	c              *Ctx
+	fn             *ssa.Function
+	vl             int64
+	cls            []*countedLoop
+	memoBase       map[ssa.Value]string
+	memoIdx        map[ssa.Value]string
+	busy           map[ssa.Value]bool
 }
 
 var m6ParamBase = map[string]map[string]string{
